@@ -335,6 +335,27 @@ class Ctx:
 
         return cm()
 
+    def cut_forks(self, value=False):
+        """context manager: inside, every data-dependent branch on a symbolic value is CUT: the given side is executed and the
+        condition is NOT added to the path condition (nothing is assumed).  Only for branches audited to have no data flow
+        (Region's 'negative volume' test only emits a warning); each use is listed under the check's assumptions."""
+        import contextlib
+
+        @contextlib.contextmanager
+        def cm():
+            ex = self.explorer
+            if not self.sym or ex is None:
+                yield
+                return
+            old = ex.policy
+            ex.policy = lambda node: ("cut", value)
+            try:
+                yield
+            finally:
+                ex.policy = old
+
+        return cm()
+
     def concrete(self):
         """context manager: real NumPy inside (build meshes/regions concretely also in sym mode)"""
         from .npproxy import concrete_mode
@@ -609,6 +630,15 @@ class CaseRunner:
             num, den = norm.ratnorm(r)
             nums.append(num)
             dens.append(den)
+        # early witness: if the real float code violates the obligation at a probe point of the domain, the solver is asked
+        # to confirm the violation at that point (variables pinned) -- a violation then costs seconds, not the full budget
+        self._cur_pc = list(pc)
+        self._dctx = (norm, ctx, ob, pi, nums, dens, list(ob.assumptions) + list(pc), [k for k in range(len(nums)) if nums[k] is not ZERO])
+        if self._dctx[-1]:
+            sv = self.sampled_violation(tries=3)
+            if sv is not None:
+                self.report_violation(ctx, ob, pi, sv, time.time() - t0)
+                return
         pre = self.numeric_triage(ctx, nums) if ob.tol is None else None
         for k, num in enumerate(nums):
             if pre is not None and pre[k] == "z":
@@ -1206,7 +1236,7 @@ class CaseRunner:
                 rep = (fctx, rec)
                 break
             err = "witness does not reproduce (err %.3g, scale %.3g)" % (rec["err"], rec["scale"])
-        if rep is None and viol.get("kind") != "hinted" and ob.kind == "zero" and getattr(self, "_dctx", None) and self._dctx[2] is ob:
+        if rep is None and not str(viol.get("kind")).startswith("hinted") and ob.kind == "zero" and getattr(self, "_dctx", None) and self._dctx[2] is ob:
             sv = self.sampled_violation()
             if sv is not None:
                 return self.report_violation(ctx, ob, pi, sv, seconds)
@@ -1238,6 +1268,18 @@ class CaseRunner:
         self._record(ob, pi, "violated", "replay", replay["observed"], seconds)
         self.violations.append({"obligation": ob.name, "replay": path, "observed": replay["observed"]})
 
+    def _probe(self, attempt):
+        """float-mode execution of the real code at a random point of the domain (cached per case: one run serves all obligations)"""
+        cache = self.__dict__.setdefault("_probe_cache", {})
+        if attempt not in cache:
+            try:
+                cache[attempt] = self.float_run({}, seed=self.seed * 7919 + 101 + attempt)
+            except Reject:
+                cache[attempt] = None
+            except Exception:  # noqa: BLE001
+                cache[attempt] = None
+        return cache[attempt]
+
     def sampled_violation(self, tries=6):
         """fallback when the solver's own witness is missing or does not replay (abstract atoms,
         NRA timeout): look for a violating float sample of the real code, then let the solver
@@ -1247,11 +1289,8 @@ class CaseRunner:
             idx = list(range(len(nums)))
         tol = _frac(ob.tol) if ob.tol else Fraction(1, 10**6)
         for attempt in range(tries):
-            try:
-                fctx = self.float_run({}, seed=self.seed * 7919 + 101 + attempt)
-            except Reject:
-                continue
-            except Exception:  # noqa: BLE001
+            fctx = self._probe(attempt)
+            if fctx is None:
                 continue
             rec = fctx.float_records.get(ob.name)
             if not rec or not rec.get("violated"):
@@ -1260,7 +1299,9 @@ class CaseRunner:
             em = Emitter(norm)
             asserts = self._domain_asserts(em, assumptions)
             disj = []
-            for k in idx[:12]:
+            where = list(rec.get("where") or [])
+            order = sorted(idx, key=lambda k: 0 if (where and ob.labels and list(ob.labels[k][: len(where)]) == where) else 1)
+            for k in order[:12]:
                 n = em.ref(nums[k])
                 d = em.ref(norm.den_node(dens[k])) if dens[k] else "1.0"
                 disj.append("(> (* %s %s) (* %s %s %s %s))" % (n, n, smtq(tol), smtq(tol), d, d))
@@ -1270,10 +1311,114 @@ class CaseRunner:
                 nm = name.strip("|")
                 if nm in env and nm not in S.SPECIAL_CONSTANTS:
                     pins.append("(= %s %s)" % (name, smtq(Fraction(float(env[nm])))))
+            # abstract (uninterpreted) atoms may take ANY value: pinning them to the values of the float-mode stand-in is sound
+            # for a witness (a model with extra equalities is a model) and leaves the solver a ground problem + root atoms
+            ufe = getattr(fctx, "uf_eval", None)
+            if ufe is not None:
+                for g in list(em.atom_done):
+                    node = norm.gen_info[g]["node"]
+                    if node.op == "uf":
+                        try:
+                            val = S.evalf(node, env, uf_eval=ufe)
+                            pins.append("(= %s %s)" % (norm.gen_name(g), smtq(Fraction(float(val)))))
+                        except (ValueError, ZeroDivisionError, OverflowError, KeyError, TypeError):
+                            pass
             r = self.solve(em.script(asserts + pins), "z3", self.budget.cex_timeout)
             if r.status == "sat":
-                return {"entry": idx[0], "model": env, "kind": "hinted"}
+                return {"entry": order[0], "model": env, "kind": "hinted"}
+            # irrational atoms (roots of the pinned rationals) can make the exact pinned question slow: bracket them instead
+            for k in order[:4]:
+                if self._confirm_by_brackets(nums[k], dens[k], norm, env, ufe, tol, assumptions):
+                    return {"entry": k, "model": env, "kind": "hinted-bracket"}
         return None
+
+    def _confirm_by_brackets(self, num, den, norm, env, ufe, tol, assumptions):
+        """violation at a pinned point, root atoms bracketed: variables := exact rationals of the float sample, abstract atoms :=
+        values of the float stand-in (any value is allowed), every remaining atom must be a root of a rational constant and is
+        enclosed in a rational interval [lo, hi] with lo^q <= base <= hi^q (checked exactly).  The solver (QF_LRA, one bounded
+        variable per monomial) refutes  |num| <= tol |den|  for ALL atom values in the brackets, hence for the true roots.
+        The assumptions are evaluated at the sample in exact arithmetic where they are rational (otherwise in floats)."""
+        try:
+            envx = {nm: Fraction(float(v)) for nm, v in env.items() if nm not in S.SPECIAL_CONSTANTS}
+            roots = [num] + ([norm.den_node(den)] if den else [])
+            mapping = {}
+            for m in S.topo(roots):
+                if m.op == "v":
+                    if m.args[0] in S.SPECIAL_CONSTANTS or m.args[0] not in envx:
+                        return False
+                    mapping[m] = const(envx[m.args[0]])
+            sub = S.substitute(roots, mapping)
+            # abstract atoms -> constants of the stand-in
+            umap = {}
+            for m in S.topo(sub):
+                if m.op == "uf":
+                    if ufe is None:
+                        return False
+                    umap[m] = const(Fraction(float(S.evalf(m, {}, uf_eval=ufe))))
+            if umap:
+                sub = S.substitute(sub, umap)
+            for a in assumptions:
+                try:
+                    if not S.evalf(a, dict(env, **S.SPECIAL_CONSTANTS), uf_eval=ufe):
+                        return False
+                except Exception:  # noqa: BLE001
+                    return False
+            n2 = Normalizer()
+            node = sub[0] if len(sub) == 1 else S.mk("/", sub[0], sub[1])
+            nn, dd = n2.ratnorm(node)
+            PN = n2.poly(nn)
+            PD = n2.poly(n2.den_node(dd)) if dd else Poly.const(1)
+            boxes = {}
+            for g in set(PN.gens()) | set(PD.gens()):
+                info = n2.gen_info[g]
+                nd = info.get("node")
+                if info.get("kind") != "atom" or nd is None or nd.op != "root" or nd.args[0].op != "c":
+                    return False
+                base, qq = nd.args[0].args[0], nd.args[1]
+                if base < 0 and qq % 2 == 0:
+                    return False
+                sgn = -1 if base < 0 else 1
+                r0 = Fraction(float(abs(base)) ** (1.0 / qq))
+                ok = False
+                for w in (2.0**-44, 2.0**-38, 2.0**-30):
+                    lo, hi = r0 * (1 - Fraction(w)), r0 * (1 + Fraction(w))
+                    if lo**qq <= abs(base) <= hi**qq:
+                        ok = True
+                        break
+                if not ok:
+                    return False
+                boxes[g] = (lo, hi) if sgn > 0 else (-hi, -lo)
+            lines = ["(set-logic QF_LRA)"]
+            mon = {}
+
+            def lin(P):
+                terms = []
+                for m, c in P.t.items():
+                    if m == 0:
+                        terms.append(smtq(c))
+                        continue
+                    if m not in mon:
+                        iv = (Fraction(1), Fraction(1))
+                        for i, e in Poly.unpack(m):
+                            iv = _interval_mul(iv, _interval_pow(boxes[i][0], boxes[i][1], e))
+                        mon[m] = "y%d" % len(mon)
+                        lines.append("(declare-fun %s () Real)" % mon[m])
+                        lines.append("(assert (and (>= %s %s) (<= %s %s)))" % (mon[m], smtq(iv[0]), mon[m], smtq(iv[1])))
+                    terms.append("(* %s %s)" % (smtq(c), mon[m]))
+                if not terms:
+                    return "0.0"
+                return terms[0] if len(terms) == 1 else "(+ %s)" % " ".join(terms)
+
+            zn, zd = lin(PN), lin(PD)
+            t = smtq(tol)
+            lines.append("(define-fun zn () Real %s)" % zn)
+            lines.append("(define-fun zd () Real %s)" % zd)
+            lines.append("(assert (or (and (>= zd 0.0) (<= zn (* %s zd)) (>= zn (- (* %s zd)))) (and (<= zd 0.0) (<= zn (- (* %s zd))) (>= zn (* %s zd)))))" % (t, t, t, t))
+            lines.append("(check-sat)")
+            r = self.solve("\n".join(lines) + "\n", "z3", 20)
+            return r.status == "unsat"
+        except (MemoryError, ValueError, ZeroDivisionError, OverflowError, KeyError, TypeError):
+            return False
 
     def match_known(self, obname):
         for k in self.known:
